@@ -70,7 +70,7 @@ fn view(i: usize, n: usize, rng: &mut Rng) -> V {
         14 => w(NAMES[14], Kind::Cog(n2), Scale::Dimensionless, false, false),
         15 => w(NAMES[15], Kind::Alma(n1), Scale::Value(1.0), false, true),
         16 => w(NAMES[16], Kind::Ema(n1), Scale::Value(1.0), true, true),
-        17 => w(NAMES[17], Kind::LagFilter(*rng.pick(&[0.25, 0.5, 0.75, 0.9375])), Scale::Value(1.0), true, false),
+        17 => w(NAMES[17], Kind::LagFilter(*rng.pick(&[0.25, 0.5, 0.75, 0.9375, 0.998046875])), Scale::Value(1.0), true, false),
         18 => w(NAMES[18], Kind::SuperSmoother(n1), Scale::Value(1.0), true, false),
         19 => w(NAMES[19], Kind::Roofing(n2, *rng.pick(&[2usize, 5, 10])), Scale::Value(1.0), true, false),
         20 => w(NAMES[20], Kind::Cyber(n.max(3)), Scale::Value(1.0), true, true),
@@ -189,6 +189,61 @@ fn climb_then_hover(len: usize, rng: &mut Rng) -> Vec<f64> {
 /// streams (a block size or a switch to running sums above some window length shows only there)
 /// (CTI five times, CoG three times: quotients of sums of products, where a cancellation shows first)
 const LARGE_VIEWS: [usize; 20] = [0, 1, 2, 3, 4, 5, 6, 7, 10, 11, 12, 14, 15, 16, 12, 12, 12, 12, 14, 14];
+
+/// PolarizedFractalEfficiency / EhlersFisherTransform (they take a moving average and are not part of
+/// the 25-view table): driven at `T`, compared at the steps `when` selects with the C11 reference
+/// model restarted on the last N + 400 inputs (windowed stage, smoother and the Fisher recursion's
+/// factor 1/2 have all faded by then), in units of the width of the documented range
+fn host_trial<T: Scalar>(host: crate::dynview::MaK, n: usize, ma: crate::oracle::ehlers::RefMa, xs: &[f64], clause: &'static str, tol: f64, when: impl Fn(usize) -> bool, out: &mut TrialOut) {
+    use crate::dynview::MaK;
+    use crate::oracle::ehlers::{self as oe, RefMa};
+    let ma_spec = match ma {
+        RefMa::Echo => Spec::Echo,
+        RefMa::Sma(k) => Spec::leaf(Kind::Sma(k)),
+        RefMa::Ema(k) => Spec::leaf(Kind::Ema(k)),
+    };
+    let spec = Spec::ma(host, n, Spec::Echo, ma_spec);
+    let (name, scale) = if host == MaK::Pfe { ("PolarizedFractalEfficiency", 2.0) } else { ("EhlersFisherTransform", 2.0 * 199f64.ln()) };
+    let Ok(mut inst) = guarded(|| build_plain::<T>(&spec)) else { return };
+    let cell = format!("{}/{}/{}", name, clause, T::NAME);
+    for t in 0..xs.len() {
+        let Ok(got) = guarded(|| {
+            inst.update(T::of(xs[t]));
+            inst.last()
+        }) else {
+            out.count("trials_ended_by_panic_of_code_under_test(C15)", 1);
+            return;
+        };
+        if !when(t) {
+            continue;
+        }
+        let tail = &xs[(t + 1).saturating_sub(n + 400)..=t];
+        let e = if host == MaK::Pfe { oe::pfe(tail, n, ma).last().copied().flatten() } else { oe::fisher(tail, n, ma).last().copied().flatten() };
+        let (Some(g), Some(e)) = (got, e) else { continue };
+        out.cell(&cell, 1);
+        let dev = (g.f() - e).abs() / scale;
+        out.maxi(&format!("max_deviation_over_scale/{}/{}/{}", clause, T::NAME, name), if dev.is_finite() { dev } else { f64::MAX });
+        if !(dev <= tol) {
+            // a Sma in the smoother slot keeps a running sum (known finding of C07): an efficiency
+            // of 1e13 (a jump of that size on the oldest step of a window) that has left it leaves
+            // eps x 1e13 behind
+            let mut pred = "any";
+            if let (true, RefMa::Sma(_)) = (host == MaK::Pfe, ma) {
+                let raw_max = oe::pfe(&xs[..=t], n, RefMa::Echo).iter().flatten().fold(0f64, |m, r| m.max(r.abs()));
+                if (g.f() - e).abs() <= 64.0 * T::EPS * raw_max {
+                    pred = "excess_le_running_sum_residue_of_the_sma_in_the_smoother_slot";
+                }
+            }
+            out.violation(
+                name,
+                clause,
+                pred,
+                format!("{} at {}: step {} of {}: output {:e}, reference model restarted on the last {} inputs {:e}: deviation {:e} of natural scale {:e} exceeds {:e}\n{}", spec.show(), T::NAME, t, xs.len(), g.f(), tail.len(), e, dev, scale, tol, show_inputs(xs, t, n + 10)),
+            );
+            return;
+        }
+    }
+}
 
 struct Ctx<'a> {
     v: &'a V,
@@ -327,7 +382,8 @@ fn drift<T: Scalar>(v: &V, xs: &[f64], out: &mut TrialOut) {
             out.count("trials_ended_by_panic_of_code_under_test(C15)", 1);
             return;
         };
-        if t % every == every - 1 || t + (2 * n).min(32) >= xs.len() {
+        // (and every step around the 65 536th and 131 072nd value: a position kept in 16 bits wraps there)
+        if t % every == every - 1 || t + (2 * n).min(32) >= xs.len() || (65_500..65_600).contains(&t) || (131_040..131_140).contains(&t) {
             if !check(&cx, xs, t, got, big, out) {
                 return;
             }
@@ -380,12 +436,62 @@ impl Monitor for C16 {
         "C16"
     }
     fn plan(&self, cfg: &Cfg) -> u64 {
-        (25 * ns(cfg).len()) as u64 * cfg.tier.pick(6, 16) + LARGE_VIEWS.len() as u64 * cfg.tier.pick(1, 4)
+        (25 * ns(cfg).len()) as u64 * cfg.tier.pick(6, 16) + LARGE_VIEWS.len() as u64 * cfg.tier.pick(1, 4) + 48 * cfg.tier.pick(1, 4)
     }
     fn trial(&self, cfg: &Cfg, idx: u64, out: &mut TrialOut) {
         let nl = ns(cfg);
         let mut rng = Rng::for_trial(cfg.seed, "C16", idx);
         let main = (25 * nl.len()) as u64 * cfg.tier.pick(6, 16);
+        let large = LARGE_VIEWS.len() as u64 * cfg.tier.pick(1, 4);
+        if idx >= main + large {
+            // the two views that take a moving average: 2 hosts x 3 smoothers x (drift, flat x 3) x (f64, f32)
+            use crate::dynview::MaK;
+            use crate::oracle::ehlers::RefMa;
+            let j = idx - main - large;
+            let host = if j % 2 == 0 { MaK::Pfe } else { MaK::Eft };
+            let ma = [RefMa::Echo, RefMa::Sma(3), RefMa::Ema(4)][((j / 2) % 3) as usize];
+            let clause = (j / 6) % 4;
+            let f32_run = (j / 24) % 2 == 1;
+            let n = rng.usize(3, 40);
+            out.key(mix(hash_str(&format!("host{:?}{:?}{}{}{}", host, ma, clause, f32_run, n)), rng.clone().next()));
+            if clause == 0 {
+                let len = if f32_run { 10_000 } else { cfg.tier.pick(30_000usize, 200_000) };
+                let xs = three_decades(len, rng.coin(), &mut rng);
+                let xs: Vec<f64> = if f32_run { xs.iter().map(|x| (*x as f32) as f64).collect() } else { xs };
+                let every = (len / 100).max(1);
+                let when = |t: usize| t % every == every - 1 || t + 16 >= len;
+                if f32_run {
+                    host_trial::<f32>(host, n, ma, &xs, "drift", 1e-2, when, out)
+                } else {
+                    host_trial::<f64>(host, n, ma, &xs, "drift", 1e-6, when, out)
+                }
+            } else {
+                // volatile prefix (three decades, or generic values times 2^0..2^20, or - at f64 - times
+                // 2^36..2^50), then N+1..3N copies of one value
+                let plen = rng.usize(3 * n + 5, 20 * n + 200);
+                let mut prefix = if clause == 1 { three_decades(plen, rng.coin(), &mut rng) } else { gen::gen(*rng.pick(&[Class::Uniform, Class::Spike, Class::Blocks]), n, plen, &mut rng) };
+                if clause >= 2 {
+                    let e = if clause == 3 && !f32_run { rng.range(36, 50) } else { rng.range(0, 20) };
+                    for x in prefix.iter_mut() {
+                        *x *= 2f64.powi(e as i32);
+                    }
+                }
+                let c = *rng.pick(&[1.0, 1000.0, 0.125, 0.1, 1.0 / 3.0, 123.456, 7.0, 0.0]);
+                let flat_len = n + 1 + rng.usize(0, 2 * n);
+                let mut xs = prefix.clone();
+                xs.extend(std::iter::repeat(c).take(flat_len));
+                let xs: Vec<f64> = if f32_run { xs.iter().map(|x| (*x as f32) as f64).collect() } else { xs };
+                let from = plen + n;
+                let when = |t: usize| t >= from;
+                out.count("flat_trials_of_views_with_a_moving_average", 1);
+                if f32_run {
+                    host_trial::<f32>(host, n, ma, &xs, "flat", 1e-2, when, out)
+                } else {
+                    host_trial::<f64>(host, n, ma, &xs, "flat", 1e-4, when, out)
+                }
+            }
+            return;
+        }
         if idx >= main {
             // large windows, 10^6 values (f64), drift clause
             let j = idx - main;
@@ -491,10 +597,15 @@ impl Monitor for C16 {
                 v.push(format!("{}/flat/f32", w.name));
             }
         }
+        for h in ["PolarizedFractalEfficiency", "EhlersFisherTransform"] {
+            v.push(format!("{}/drift/f64", h));
+            v.push(format!("{}/flat/f64", h));
+            v.push(format!("{}/flat/f32", h));
+        }
         v
     }
     fn rule(&self) -> String {
-        "trial = (one of 25 views; N; clause; value grid dyadic or tenths; scalar f64 or f32). drift: three-decade stream (values in [1,1000], non-zero steps in [1/8,100]) of 1e5 (quick) / 1e6 (thorough) values (shorter for O(N)-per-update and recursive views), plus, in both tiers, 20 trials of 14 windowed views (CTI five, CoG three times) at N in {300, 400, 520} on 1e6 values (two thirds of them on a stream that climbs from 1 to 1000 and then walks inside [990,1000] with steps of 0.001..0.017), f64 output vs exact reference at 200 checkpoints and each of the last min(2N, 32) steps, 1e-6 of natural scale (f32: 1e-2, 1e4 values). flat: three-decade or wide-range (x 2^0..2^20) volatile prefix then N+1..3N copies of c in {1, 1000, 1/8, 0.1, 1/3, 123.456, 7, 0}, every step whose window is flat, 1e-4 of scale (f32: 1e-4 for the views the statement names, 1e-2 for the others; a third of the prefixes - two thirds, 1000..3000 values long, for windowed views at f32 - sit at a high level with a small spread: 1000 / 250 / 12345 +- 1/16 or 1/2). Reference: exact batch oracle over the recent inputs for windowed views; the C11 reference model (SuperSmoother/Roofing: a fresh f64 instance of the code) restarted on the last S(N) inputs for recursive ones. distinct = distinct (view, N, clause, scalar, stream)".into()
+        "trial = (one of 25 views, or PolarizedFractalEfficiency / EhlersFisherTransform over Echo, Sma(3) or Ema(4) (48 trials per repetition: drift, and flat after a three-decade prefix, a prefix x 2^0..2^20 and - at f64 - a prefix x 2^36..2^50; reference: the C11 model restarted on the last N + 400 inputs); N; clause; value grid dyadic or tenths; scalar f64 or f32). drift: three-decade stream (values in [1,1000], non-zero steps in [1/8,100]) of 1e5 (quick) / 1e6 (thorough) values (shorter for O(N)-per-update and recursive views), plus, in both tiers, 20 trials of 14 windowed views (CTI five, CoG three times) at N in {300, 400, 520} on 1e6 values (two thirds of them on a stream that climbs from 1 to 1000 and then walks inside [990,1000] with steps of 0.001..0.017), f64 output vs exact reference at 200 checkpoints, every step around the 65 536th and 131 072nd value and each of the last min(2N, 32) steps, 1e-6 of natural scale (f32: 1e-2, 1e4 values). flat: three-decade or wide-range (x 2^0..2^20) volatile prefix then N+1..3N copies of c in {1, 1000, 1/8, 0.1, 1/3, 123.456, 7, 0}, every step whose window is flat, 1e-4 of scale (f32: 1e-4 for the views the statement names, 1e-2 for the others; a third of the prefixes - two thirds, 1000..3000 values long, for windowed views at f32 - sit at a high level with a small spread: 1000 / 250 / 12345 +- 1/16 or 1/2). Reference: exact batch oracle over the recent inputs for windowed views; the C11 reference model (SuperSmoother/Roofing: a fresh f64 instance of the code) restarted on the last S(N) inputs for recursive ones. distinct = distinct (view, N, clause, scalar, stream)".into()
     }
     fn assumptions(&self) -> Vec<String> {
         vec![
